@@ -413,6 +413,46 @@ def correspondence(ctx, steps, snells, units, waists, obs, budget):
         ctx.violation("S4", f"generated model and implementation disagree on a {what} step (case {cid})", {"kind": "model_mismatch", "what": what}, rep, found_input=False)
 
 
+def nm_replay(ctx, snells, budget):
+    """bit-exact replay of the real nelder_mead_1d run behind calc_internal_theta_from_external through the PrimFloat instance of
+    grpE's Nelder-Mead model (Model/NM1d.v, checker Proofs/C04_cases.v; expression builder reused from props/c04.py)"""
+    from props.c04 import nm_expr_table, IMPORTS as NM_IMPORTS
+    cand = []
+    for o in snells:
+        r = o.get("replica")
+        if not r or not r["result"]["ok"] or not r["table"]:
+            continue
+        if any(not is_finite_hex(c) and fl(c) != float("inf") for _, c in r["table"]):
+            continue
+        rep = {"crystal": o["id"], "polarization": o["pol"], "theta_external_deg": fl(o["te_deg"]), "replay": None}
+        if r["direct"] is None or r["direct"] != r["result"]["x"]:
+            # the harness replica (cost closure rebuilt from public API) no longer follows calc_internal_theta_from_external
+            ctx.case_failures.append(rep)
+            ctx.violation("S4", f"{o['id']}: calc_internal_theta_from_external returns {fl(r['direct']) if r['direct'] else None!r}, the replica of its "
+                          f"optimisation (cost |sin th_e - n sin th|, seeds (th_e, th_e + 1), 100 iterations, [0, pi/2], 1e-12) returns "
+                          f"{fl(r['result']['x'])!r}", {"kind": "model_mismatch", "what": "snell_replica"}, rep, found_input=False)
+            continue
+        cand.append(o)
+    # prefer a spread over generators
+    step = max(1, len(cand) // max(1, budget))
+    chosen = cand[::step][:budget]
+    exprs = [(f"nm{i}", nm_expr_table(o["replica"])) for i, o in enumerate(chosen)]
+    res = run_compute_cases(ctx, "C13nm", NM_IMPORTS, "", exprs, shards=min(NCPU, max(1, len(exprs) // 6)))
+    nok = 0
+    for i, o in enumerate(chosen):
+        out = res.get(f"nm{i}")
+        ctx.cov["obligations"] += 1
+        if out is not None and out.replace(" ", "").startswith("(true,true,"):
+            nok += 1
+            ctx.cov["discharged"] += 1
+            continue
+        rep = {"crystal": o["id"], "polarization": o["pol"], "theta_external_deg": fl(o["te_deg"]), "model": out}
+        ctx.case_failures.append(rep)
+        ctx.violation("S4", f"{o['id']}: the Nelder-Mead model replayed on the recorded evaluations of the Snell inversion disagrees with nelder_mead_1d: {out}",
+                      {"kind": "model_mismatch", "what": "snell_nm"}, rep, found_input=False)
+    ctx.log(f"S4 Nelder-Mead model vs nelder_mead_1d on the Snell inversion, bit-exact result and evaluation sequence: {nok}/{len(chosen)} runs")
+
+
 def run_replay(ctx, binp):
     """./check C13 --replay <file>: re-run exactly the recorded history / Snell input through the implementation and the oracle"""
     rec = json.load(open(ctx.replay if os.path.isabs(ctx.replay) else os.path.join(VERIF, ctx.replay)))
@@ -437,7 +477,7 @@ def run(ctx):
     ctx.cov["translated_spans"] = {k: v for k, v in spans.items() if k.split("::")[0] in ("beam", "math", "utils", "crystal_setup")}
     for m in msgs:
         ctx.proof_failures.append(("Gen/Beam.v", "translator", m))
-    proved = (not msgs) and prove(ctx, "C13", extra_targets=["Proofs/C13_case.vo"])
+    proved = (not msgs) and prove(ctx, "C13", extra_targets=["Proofs/C13_case.vo", "Proofs/C04_cases.vo"])
     okf, _, _ = coq_build(ctx, ["Findings/C13_snell_near_axis.vo"])
     if not okf:
         ctx.note("Findings/C13_snell_near_axis.v no longer compiles")
@@ -460,6 +500,7 @@ def run(ctx):
             f"(max read-back error {max([abs(fl(o['back']) - fl(o['te'])) / DEG for o in snells] or [0]):.2e} deg), {len(units)} unit cases, {len(waists)} waist positions")
     if os.path.exists(os.path.join(COQ, "Proofs", "C13_case.vo")):
         correspondence(ctx, steps, snells, units, waists, obs, budget)
+        nm_replay(ctx, snells, 24 if quick else 96)
     else:
         ctx.note("correspondence cases skipped: Proofs/C13_case.vo did not compile")
     if (not proved or ctx.case_failures) and not any(v["found_input"] for v in ctx.violations):
@@ -482,7 +523,7 @@ def run(ctx):
         "azimuth in [0, 2 pi], polar angle in (-pi, pi]": "proved ([0, 2 pi) over R; binary64 may return exactly 2 pi — measured)",
         "congruent to the last requested values mod 2 pi": "proved; binary64 measured with tolerance 1e-15 + 1e-16 |x| (reduction modulo the double nearest 2 pi)",
         "pump converted from a beam points along z": "proved",
-        "set external angle, read back within 1e-5 deg; sin th_e = n sin th_i; |th_i| <= |th_e|": "proved_partial (conditional on the optimiser's residual <= 3e-8, which is checked on every generated input)",
+        "set external angle, read back within 1e-5 deg; sin th_e = n sin th_i; |th_i| <= |th_e|": "proved_partial: with the two-vertex Nelder-Mead MODELLED (Model/NM1d.v, replayed bit for bit against nelder_mead_1d) the returned angle is in [0, pi/2] with residual <= residual at the seed, a root exists in [0, th_e] (IVT, built-in crystals), and the round trip follows from the residual; convergence to residual <= 3e-8 within 100 iterations stays a contract checked on every generated input",
         "omega = 2 pi c / lambda both ways; Celsius/Kelvin; FWHM = 2 sqrt(2 ln 2) sigma; waist conversions": "proved (field) + measured 1e-15",
         "waist position = -L / (2 n_z)": "proved for the generated formula; n_z is C02's index along z"}
     return finish(ctx, assumptions=[
